@@ -762,7 +762,7 @@ Section AddIgnored.
     intros f data Hin. unfold visible. rewrite ai_tracked.
     rewrite (ignored_ext w w' pats f ai_idx (ai_wt_stat_file f data Hin)).
     f_equal. apply forallb_ext_in. intros a Ha.
-    rewrite (ignored_ext w w' pats a ai_idx (ai_wt_stat_anc f data a Hin Ha)), ai_idx. reflexivity.
+    rewrite (ignored_ext w w' pats a ai_idx (ai_wt_stat_anc f data a Hin Ha)), ai_idx, ?ai_tracked. reflexivity.
   Qed.
 
   (* the new file is not *)
